@@ -106,6 +106,19 @@ static Gen makeSchema(RSForm& f, vh::Rng& rng, bool spoil) {
     g.terms.push_back(f.Emplace(CstType::term, def));
   }
   if (rng.chance(1, 3)) g.others.push_back(f.Emplace(CstType::axiom, alias(g.terms[0]) + "=" + alias(g.terms[0])));
+  if (rng.chance(1, 4)) {
+    // duplicates inside one operand: a repeated term and axioms about it (listed before the terms), so that
+    // removing one duplicate can make another pair identical (cascade across passes of DeleteDuplicates)
+    const auto t = rng.pick(g.terms);
+    const auto def = f.GetRS(t).definition;
+    const auto copy = f.Emplace(CstType::term, def);
+    g.terms.push_back(copy);
+    const int na = rng.range(1, 3);
+    for (int i = 0; i < na; ++i) {
+      const auto who = rng.chance(1, 2) ? t : copy;
+      g.others.push_back(f.Emplace(CstType::axiom, alias(who) + "=" + alias(who)));
+    }
+  }
   if (rng.chance(1, 3)) g.others.push_back(f.Emplace(CstType::function, "[\xCE\xB1\xE2\x88\x88" + BOOL + "(" + X + ")] \xCE\xB1" + UNION + alias(g.terms[0])));
   if (spoil) {
     const int r = rng.range(0, 2);
@@ -308,6 +321,81 @@ static void synthesisCase(vh::Rng& rng) {
   }
 }
 
+// duplicates inside one schema: DeleteDuplicates gives a translation from every removed constituent to
+// its survivor; nothing else changes except the mentions of the removed aliases
+static void dupCase(vh::Rng& rng) {
+  RSForm f;
+  std::vector<uint32_t> bases, terms;
+  const int nb = rng.range(1, 2);
+  for (int i = 0; i < nb; ++i) bases.push_back(f.Emplace(CstType::base));
+  auto alias = [&](uint32_t u) { return f.GetRS(u).alias; };
+  // planned constituents, emplaced in a random interleaving (the list keeps axioms, terms, theorems in emplace order),
+  // so that a constituent may mention duplicates listed after it: the aliases D1..Dn are predicted
+  const int nt = rng.range(2, 5);
+  std::vector<std::pair<CstType, std::string>> plan;
+  std::vector<std::string> tnames;
+  for (int i = 0; i < nt; ++i) tnames.push_back("D" + std::to_string(i + 1));
+  const bool narrow0 = rng.chance(1, 2);   // the first two terms are copies of each other
+  for (int i = 0; i < nt; ++i) {
+    std::string def;
+    const auto X = alias(i < 2 && narrow0 ? bases[0] : rng.pick(bases));
+    switch (i < 2 && narrow0 ? 0 : rng.range(0, 3)) {
+    default:
+    case 0: def = X + "\\" + X; break;
+    case 1: def = X + UNION + X; break;
+    case 2: def = i == 0 ? X : tnames[static_cast<size_t>(rng.range(0, i - 1))] + UNION + X; break;
+    case 3: def = i == 0 ? X : tnames[static_cast<size_t>(rng.range(0, i - 1))]; break;
+    }
+    plan.emplace_back(CstType::term, def);
+  }
+  const int na = rng.range(0, 6);
+  const bool narrow = rng.chance(1, 2);   // axioms about few terms: identical axioms and cascades are likely
+  auto pickName = [&] { return narrow ? tnames[static_cast<size_t>(rng.range(0, 1))] : rng.pick(tnames); };
+  for (int i = 0; i < na; ++i) {
+    const auto l = pickName();
+    const auto r = rng.chance(2, 3) ? l : pickName();
+    const auto pos = static_cast<size_t>(rng.range(0, static_cast<int>(plan.size())));
+    plan.insert(plan.begin() + static_cast<std::ptrdiff_t>(pos), { rng.chance(3, 4) ? CstType::axiom : CstType::theorem, l + "=" + r });
+  }
+  for (const auto& [type, def] : plan) {
+    const auto uid = f.Emplace(type, def);
+    if (type == CstType::term) terms.push_back(uid);
+  }
+  if (rng.chance(1, 3)) for (int i = 0; i < 2; ++i)
+    f.Emplace(CstType::function, "[\xCE\xB1\xE2\x88\x88" + BOOL + "(" + alias(bases[0]) + ")] \xCE\xB1" + UNION + alias(rng.pick(terms)));
+  if (rng.chance(1, 3)) { const auto t = rng.pick(terms); f.SetTermFor(t, "name"); }
+  const RSForm before = f;
+  const auto tr = f.Ops().DeleteDuplicates();
+  emit("c12 dups " + nosp(dumpForm(before)), trWire(tr));
+  std::string bad;
+  for (const auto& [k, v] : tr) {
+    if (!before.Contains(k)) bad = "key " + std::to_string(k) + " never existed";
+    else if (f.Contains(k)) bad = "removed " + before.GetRS(k).alias + " is still present";
+    else if (!f.Contains(v)) bad = "image of " + before.GetRS(k).alias + " (uid " + std::to_string(v) + ") is not in the schema";
+  }
+  if (bad.empty() && std::size(f.Core()) + std::size(tr) != std::size(before.Core())) bad = "constituent count does not match the translation";
+  chk("dups-translation-valid", bad);
+  if (!bad.empty()) return;
+  std::map<std::string, std::string> m;
+  for (const auto uid : before.Core()) m[before.GetRS(uid).alias] = f.GetRS(tr.ContainsKey(uid) ? tr(uid) : uid).alias;
+  for (const auto uid : before.Core()) {
+    const auto img = tr.ContainsKey(uid) ? tr(uid) : uid;
+    const auto want = renameIds(before.GetRS(uid).definition, m);
+    if (want != f.GetRS(img).definition) bad = before.GetRS(uid).alias + ": definition [" + f.GetRS(img).definition + "] expected [" + want + "]";
+    if (before.GetRS(uid).type != f.GetRS(img).type) bad = before.GetRS(uid).alias + ": kind changed";
+  }
+  chk("dups-mentions-rewritten", bad);
+  bad.clear();
+  for (const auto u1 : f.Core()) for (const auto u2 : f.Core()) {
+    if (u1 >= u2) continue;
+    const auto& r1 = f.GetRS(u1); const auto& r2 = f.GetRS(u2);
+    if (r1.definition.empty() && r1.convention.empty()) continue;
+    if (r1.type == r2.type && r1.definition == r2.definition && r1.convention == r2.convention && f.GetText(u1) == f.GetText(u2))
+      bad = r1.alias + " and " + r2.alias + " are still duplicates";
+  }
+  chk("dups-none-left", bad);
+}
+
 int main() {
   vh::Rng rng(vh::seedFromEnv());
   const bool deep = vh::thorough();
@@ -319,6 +407,7 @@ int main() {
     vh::Rng sub(cs);
     if (only != nullptr) { if (std::atoi(only) == i) { ccl::verif::Seed(static_cast<uint32_t>(cs)); synthesisCase(sub); } continue; }
     vh::forkedEmit([&] { ccl::verif::Seed(static_cast<uint32_t>(cs)); synthesisCase(sub); }, "c12 crash", 60);
+    vh::forkedEmit([&] { ccl::verif::Seed(static_cast<uint32_t>(cs)); vh::Rng sub2(cs ^ 0x9E3779B97F4A7C15ULL); dupCase(sub2); }, "c12 crash", 60);
   }
   return 0;
 }
